@@ -1182,3 +1182,22 @@ package solver
 //@     invariant own:  grown(lits) && grown(weights) && fresh(lits) && fresh(weights)
 //@     invariant same: pb.card == old(pb.card) && pb.weights == old(pb.weights) && forall(v, 0, len(pb.weights), pb.weights[v] == old(pb.weights[v]))
 //@     invariant sum:  psum(lits, weights, A, len(lits)) == vsum(pb.weights, A, rangei)
+
+//@ define psumc2(c *Clause, A asg, n int) int = ite(c.pbData == nil, psum(c.lits, nil, A, n), psum(c.lits, c.pbData.weights, A, n))
+// (*Solver).pbSet: the set representation of a stored constraint whose literals mention pairwise
+// different variables means the same thing for every assignment.
+//@ func (*Solver).pbSet
+//@   ghost A asg
+//@   inline-calls (Lit).Var, (Lit).IsPositive
+//@   requires wf:   c != nil && litsWF(c.lits, len(buffer)) && (c.pbData != nil ==> len(c.pbData.weights) == len(c.lits) && forall(k, 0, len(c.lits), c.pbData.weights[k] >= 0) && !aliased(c.pbData.weights, buffer))
+//@   requires dist: forall(k1, 0, len(c.lits), forall(k2, 0, len(c.lits), k1 != k2 ==> c.lits[k1] / 2 != c.lits[k2] / 2))
+//@   modifies buffer[*]
+//@   ensures  shape: result != nil && fresh(result) && result.weights == buffer && result.card == c.Cardinality()
+//@   ensures  sem:   pbval(result, A) <==> holds(c, A)
+//@   loop 1
+//@     invariant idx:  0 <= rangei && rangei <= len(buffer) && res != nil && fresh(res) && res.weights == buffer && res.card == c.Cardinality()
+//@     invariant zero: forall(k, 0, rangei, buffer[k] == 0)
+//@   loop 2
+//@     invariant idx:  0 <= i && i <= len(c.lits) && res != nil && fresh(res) && res.weights == buffer && res.card == c.Cardinality()
+//@     invariant rest: forall(k, i, len(c.lits), buffer[c.lits[k] / 2] == 0)
+//@     invariant sum:  vsum(buffer, A, len(buffer)) == psumc2(c, A, i)
